@@ -39,8 +39,7 @@ def havoc_locals(eng, st, names):
                 raise Unsupported(f"loop-modified tuple local {n}")
             nv = fresh_value("lp!" + n, v.s)
             st.env[n] = nv
-            if nv.s[0] in ("ref", "list", "opq"):
-                eng.typing_facts(st, nv)
+            eng.typing_facts(st, nv)
 
 
 def loop_contract(eng, node):
@@ -83,6 +82,9 @@ def loop_mods(eng, lc, body):
                         mods.add("list")
             if isinstance(n, ast.Delete):
                 mods.add("list")
+            if isinstance(n, ast.Call) and isinstance(n.func, ast.Attribute) and n.func.attr in (
+                    "append", "pop", "clear", "extend", "insert", "remove", "sort", "reverse"):
+                mods.add("list")
     return eng.expand_modifies(sorted(mods))
 
 
@@ -92,13 +94,20 @@ def cut_loop(eng, node, st, k, ctx, n, lc, guard_fn, pre_body, post_body, index_
     pre_body(st): bind loop variable(s) at the start of an iteration.
     post_body(st): advance the ghost index at the end of an iteration."""
     from .specs import SpecEval
+    for nm, srt in lc.get("locals", {}).items():
+        cur = st.env.get(nm)
+        if cur is not None and cur.s[0] == "list" and cur.s[1] == ("unk",):
+            st.env[nm] = V(srt, cur.t)      # empty literal list: element sort declared by the loop contract
     check_invs(eng, st, lc, n, "inv-entry", node, index_extra(st))
     entry = st.fork()
     entry.loop_entry = None
     st.loop_entry = entry
-    body_names = assigned_names(node.body) | set(lc.get("locals", {}).keys())
+    body_names = assigned_names(node.body)
     for nm, srt in lc.get("locals", {}).items():
-        if nm not in st.env or st.env[nm].s == PY:
+        cur = st.env.get(nm)
+        if cur is not None and cur.s[0] == "list" and cur.s[1] == ("unk",):
+            st.env[nm] = V(srt, cur.t)      # empty literal list: element sort declared by the loop contract
+        elif cur is None or cur.s == PY:
             st.env[nm] = fresh_value("lp!" + nm, srt)
     mods = loop_mods(eng, lc, node.body)
     alloc0 = st.heap.alloc
@@ -107,7 +116,7 @@ def cut_loop(eng, node, st, k, ctx, n, lc, guard_fn, pre_body, post_body, index_
         # objects allocated by earlier iterations: every array may have changed on fresh objects only
         modset = set()
         for m in mods:
-            modset |= ({"list.len", "list.I", "list.R", "list.S"} if m == "list" else {m, m + "#n"})
+            modset |= ({"list.len", "list.I", "list.R", "list.S", "list.nan"} if m == "list" else {m, m + "#n"})
         for nm in list(st.heap.arrs):
             if nm in modset:
                 continue
@@ -130,10 +139,19 @@ def cut_loop(eng, node, st, k, ctx, n, lc, guard_fn, pre_body, post_body, index_
     if lc.get("decreases"):
         variant0 = SpecEval(eng, st, pre_state=st.old, extra=index_extra(st)).value(lc["decreases"])
 
+    log0 = len(st.wlog)
+    declared_names = set(mods) | {"ghost." + g for g in lc.get("ghost_modifies", [])}
+
+    def check_declared(s_end):
+        for nm in s_end.wlog[log0:]:
+            if nm not in declared_names:
+                raise Unsupported(f"loop {n} writes {nm}, which its loop contract does not list under modifies")
+
     def iteration(s_it):
         pre_body(s_it)
 
         def end_of_body(s_end):
+            check_declared(s_end)
             post_body(s_end)
             check_invs(eng, s_end, lc, n, "inv-step", node, index_extra(s_end))
             if variant0 is not None:
@@ -271,8 +289,8 @@ def exec_for(eng, node, st, k, ctx):
             s.env[idx_name] = V(INT, i)
             s.assume(i >= 0)
             s.assume(i <= count)
-        lc = dict(lc)
-        lc["_index_havoc"] = index_havoc
+        lc2 = dict(lc)
+        lc2["_index_havoc"] = index_havoc
         # the iteration space itself is read before the loop: count is fixed
         def guard_fn(s, k_true, k_false):
             i = lift(s.env[idx_name]).t
@@ -287,7 +305,7 @@ def exec_for(eng, node, st, k, ctx):
 
         def post_body(s):
             s.env[idx_name] = V(INT, lift(s.env[idx_name]).t + 1)
-        return cut_loop(eng, node, s1, k, ctx, n, lc, guard_fn, pre_body, post_body, lambda s: {})
+        return cut_loop(eng, node, s1, k, ctx, n, lc2, guard_fn, pre_body, post_body, lambda s: {})
     return eng.ev(node.iter, st, on_iter, ctx)
 
 
